@@ -60,7 +60,7 @@ Section Recover.
     | Exit c s => Exit c s | Abort s => Abort s | MemErr s => MemErr s | Hang s => Hang s
     end.
   Proof. reflexivity. Qed.
-  Lemma fuel_SS : Nat.mul 64 64 = S (S 4094).
+  Lemma fuel_SS d : pa_fuel d = S (S (psi d)).
   Proof. reflexivity. Qed.
 
   Lemma ping_off now d tmo : dv_ping_period d = 0 -> enqueue_ping now d tmo = (d, tmo).
